@@ -380,4 +380,8 @@ def angleDist (trunc : α → Int) (τ θ1 θ2 : α) : α :=
 
 end Angle
 
+/-- The truncation toward zero the exact-mode driver runs the angle and joined-curve models with
+(`math.Mod`'s integer quotient, Go's `int(x)`): proved to satisfy `IsTrunc` in `Props/C17.lean`. -/
+def ratTrunc (q : Rat) : Int := q.num.tdiv q.den
+
 end M3d.Num
